@@ -275,7 +275,8 @@ extract_slice_indices (PyObject* index, size_t& start, size_t& end,
         {
             boost::python::throw_error_already_set();
         }
-        if (s < 0 || e < -1 || sl < 0)
+        // (an empty array yields s == -1 for a negative step; nothing is selected then)
+        if (sl < 0 || (sl > 0 && (s < 0 || e < -1)))
         {
             throw std::domain_error
                   ("Slice extraction produced invalid start, end, or length indices");
